@@ -15,6 +15,11 @@ Units
   * USB3ProtocolLayer (real class; the link layer it is handed is an *open* sidecar object with the real interface record
     types, i.e. free inputs): the same end-to-end clauses observed at the link layer's header queue and at the protocol
     layer's `bus_interval` output, plus wiring obligations that the receiver sits behind the demultiplexer unchanged.
+
+Finding on the unchanged tree (proposed_fixes/C47_timestamp_output_widths.diff): `bus_interval_counter` and `delta` are
+declared `Signal()` (1 bit) although documented as Signal(14)/Signal(13); only bit 0 of each field is reported.  Witness:
+one header with dw0 = 0x4C (type 12, counter field = 2): the reported counter is 0 in the next cycle.  With the two
+declarations widened every obligation below is discharged.
 """
 import z3
 from amaranth import Signal
